@@ -26,6 +26,7 @@ type job struct {
 	Env     []uint64   `json:"env,omitempty"` // heads announced by the environment thread, in order (each followed by a tick)
 	Faults  bool       `json:"faults,omitempty"`
 	Pre     int        `json:"pre,omitempty"` // preemption bound override (0 = tier default)
+	FK      int        `json:"fk,omitempty"`  // fault kinds on fault jobs: 0/2 = rpc error object + transport error, 1 = rpc error object only
 }
 
 func (j job) String() string {
@@ -39,6 +40,9 @@ func (j job) String() string {
 	}
 	if j.Faults {
 		s += " +faults"
+		if j.FK == 1 {
+			s += "(rpc-error only)"
+		}
 	}
 	return s
 }
@@ -213,10 +217,17 @@ func execJob(j job, ch vrt.Chooser, states *vrt.StateSet, trace bool) (res execR
 		c := jrpc2.New(nodeURL).WithMaxReads(j.M)
 		if j.Faults {
 			w.RPCFaultKinds = 2
+			if j.FK > 0 {
+				w.RPCFaultKinds = j.FK
+			}
 		}
-		announce := func(hd uint64) {
-			// the node now announces head hd (a prefix of the one static chain) …
-			w.Node(host).SetChain(prefixes[hd])
+		announce := func(hd uint64, alt bool) {
+			// the node now announces head hd (a prefix of the static chain, or of its sibling branch) …
+			if alt {
+				w.Node(host).SetChain(altPrefixes[hd])
+			} else {
+				w.Node(host).SetChain(prefixes[hd])
+			}
 			h.EnvOps++
 			h.tick()
 			// … and the poller's ticker fires (the poller exists after the first Latest call)
@@ -229,7 +240,7 @@ func execJob(j job, ch vrt.Chooser, states *vrt.StateSet, trace bool) (res execR
 		}
 		run := func(name string, o op) {
 			if o.Head > 0 {
-				announce(o.Head)
+				announce(o.Head, o.Alt)
 				return
 			}
 			k := &call{ID: len(h.Calls), Thread: name, Op: o, Inv: h.tick(), Ret: -1}
@@ -298,7 +309,7 @@ func execJob(j job, ch vrt.Chooser, states *vrt.StateSet, trace bool) (res execR
 					if w.V.Closing() {
 						return
 					}
-					announce(hd)
+					announce(hd, false)
 				}
 			})
 			env.OnlyAt = func(l string) bool { return strings.HasPrefix(l, "rpc:") || strings.HasPrefix(l, "boundary:") }
